@@ -208,7 +208,7 @@ def exec_op(ctx: Ctx, op: dict, rec: dict) -> Any:
         tx.append_data(rows, schema=sch)
         return tx.commit()
     if kind == "multi":
-        parts = [mkrows(f"{op['tag']}a", op.get("n", 1)), mkrows(f"{op['tag']}b", op.get("n", 1))]
+        parts = [mkrows(f"{op['tag']}{chr(97 + q)}", op.get("n", 1)) for q in range(op.get("parts", 2))]
         res["appends"] = parts
         if op.get("pause"):
             pass
@@ -217,13 +217,15 @@ def exec_op(ctx: Ctx, op: dict, rec: dict) -> Any:
                 tx.append_data(parts[0])
                 if op.get("gap"):
                     sim.sleep(op["gap"])
-                tx.append_data(parts[1])
+                for part in parts[1:]:
+                    tx.append_data(part)
             return True
         tx = t.new_transaction().begin()
         tx.append_data(parts[0])
         if op.get("gap"):
             sim.sleep(op["gap"])
-        tx.append_data(parts[1])
+        for part in parts[1:]:
+            tx.append_data(part)
         return tx.commit()
     if kind == "long_append":
         # append_data, hold the transaction open for `gap` virtual seconds, then commit
@@ -346,6 +348,9 @@ def exec_op(ctx: Ctx, op: dict, rec: dict) -> Any:
     if kind == "sleep":
         sim.sleep(op["dt"])
         return None
+    if kind == "stage_file":
+        t.storage.write_file(f"data/{op['name']}", b"PAR1-staged-by-harness")
+        return True
     if kind == "scan":
         api = op.get("api", "scan")
         rows = read_api(t, api, op)
